@@ -4,7 +4,7 @@
 import glob, json, os, shutil, subprocess, sys, tempfile, concurrent.futures as cf
 VERIF = os.path.dirname(os.path.dirname(os.path.abspath(__file__)))
 ENV = dict(os.environ, GOFLAGS="-mod=mod", GOPROXY="off", GOSUMDB="off", GOTOOLCHAIN="local"); ENV.pop("GOWORK", None)
-PROPS = subprocess.run([os.path.join(VERIF, "bin", "yverif"), "list"], capture_output=True, text=True).stdout.split()
+PROPS = subprocess.run([os.environ.get("YVERIF_BIN", os.path.join(VERIF, "bin", "yverif")), "list"], capture_output=True, text=True).stdout.split()
 
 def one(diff):
     tmp = tempfile.mkdtemp(prefix="ysshra-neut-")
@@ -23,7 +23,7 @@ def one(diff):
         vdir = os.path.join(tmp, "verif"); os.makedirs(os.path.join(vdir, "evidence"))
         shutil.copy(os.path.join(VERIF, "known_findings.json"), vdir)
         alarms = []
-        r = subprocess.run([os.path.join(VERIF, "bin", "yverif"), "checkall", "-repo", root, "-verif", vdir], env=ENV, capture_output=True, text=True)
+        r = subprocess.run([os.environ.get("YVERIF_BIN", os.path.join(VERIF, "bin", "yverif")), "checkall", "-repo", root, "-verif", vdir], env=ENV, capture_output=True, text=True)
         if r.returncode != 0:
             cur = ""
             for l in r.stdout.splitlines():
